@@ -459,6 +459,104 @@ def rt_values(ty):
     return RT_VALUES["u32"]
 
 
+def struct_sig(ty, p):
+    """the values a reader only compares (container counts, map keys, option tag): part of the receiver's shape"""
+    sig = []
+    pos = [0]
+
+    def walk(items):
+        for itx in items:
+            k = itx[0]
+            if k in ("u32", "u64"):
+                pos[0] += 1
+            elif k == "dist":
+                pos[0] += 2
+            elif k == "key64":
+                sig.append(("key", p["F"][pos[0]]))
+                pos[0] += 1
+            elif k == "opt":
+                c = p["F"][pos[0]]
+                sig.append(("opt", c))
+                pos[0] += 1
+                if c == 1:
+                    walk(itx[1])
+            elif k == "rep":
+                c = p["F"][pos[0]]
+                sig.append(("count", c))
+                pos[0] += 1
+                for _ in range(c):
+                    walk(itx[1])
+    walk(SCHEMA[ty])
+    return sig
+
+
+def leaf_need(kind, dims):
+    if kind == "v":
+        n, cols, size, mx = dims
+        return (n * cols * mx * 8) if size <= mx else None
+    if kind == "s":
+        return dims[0] * dims[1] * 8
+    n, size, rows, ci, co = dims
+    return rows * ci * n * co * size * 8
+
+
+def fits_capacity(ty, stream, recv_p, recv_leaves):
+    """The property text's premise, decided from the stream and the receiver's CAPACITY (buffer lengths) and
+    container shape only: 'a stream whose object fits the receiver's capacity'."""
+    try:
+        q = parse(ty, stream)
+    except ParseError:
+        return False
+    if q["end"] != len(stream) or len(q["L"]) != len(recv_leaves):
+        return False
+    # the multiset of map keys / counts must be the receiver's (keys may arrive in any order; ours are sorted)
+    if struct_sig(ty, q) != struct_sig(ty, recv_p):
+        return False
+    for (k, dims, ln, pay, _), (k0, d0, buf0) in zip(q["L"], recv_leaves):
+        need = leaf_need(k, dims)
+        if k != k0 or need is None or need > len(buf0) or need >= U64:
+            return False
+    return True
+
+
+def split_seq_answer(line):
+    """'id a | b | c' -> list of (outcome, dict)"""
+    body = line.split(" ", 1)[1] if " " in line else ""
+    out = []
+    for piece in body.split(" | "):
+        t = piece.split()
+        d = {}
+        for x in t[1:]:
+            if "=" in x:
+                k, v = x.split("=", 1)
+                d[k] = v
+        out.append((t[0] if t else "?", d))
+    return out
+
+
+def judge_sequence(ty, streams, answers, w0, recv_p, recv_leaves):
+    """Oracle of the property text on the implementation's own answers for one receiver-reuse sequence.
+    Returns (index of the first failing read, reason) or None.  Wrapper-field / container effects of an error are
+    the recorded findings and are not judged here; the HAL layouts are judged strictly."""
+    prev_w = hx(w0)
+    prev_md = None
+    for j, (data, (ho, hd)) in enumerate(zip(streams, answers)):
+        if ho.startswith("panic") or ho == "?":
+            return j, "panic / no answer: " + ho
+        if fits_capacity(ty, data, recv_p, recv_leaves):
+            if ho != "ok" or hd.get("rest") != "0":
+                return j, f"a stream whose object fits the receiver's capacity was rejected ({ho}) after {j} earlier read(s)"
+            if hd.get("W") != hx(data):
+                return j, "accepted, but re-serialising the receiver does not give the stream's bytes (object not reproduced)"
+        if ho.startswith("err") and ty in HAL:
+            if hd.get("W") != prev_w or (prev_md is not None and (hd.get("M"), hd.get("D")) != prev_md):
+                return j, "a rejected read changed the receiver"
+        prev_w = hd.get("W")
+        if "M" in hd:
+            prev_md = (hd.get("M"), hd.get("D"))
+    return None
+
+
 def run_harness(ctx, binp, lines, limit=True):
     """run pvh ser under RLIMIT_AS = MEM.  Returns (rc, out_lines)."""
     def pre():
@@ -505,6 +603,8 @@ def run(ctx):
             broken.append(f"harness build failed ({prof}): " + getattr(ctx, "build_error", "")[-400:])
         else:
             bins[prof] = b
+    if os.environ.get("C18_PVH"):          # self-test hook: judge another build of the harness (e.g. against a seeded copy of /repo)
+        bins = {"release": os.environ["C18_PVH"]}
     if drv is None:
         broken.append("model driver does not build: " + getattr(ctx, "driver_error", "")[-400:])
 
@@ -699,6 +799,114 @@ def run(ctx):
             if len(ctx.samples) < 8 and cls.startswith(("subst", "vec-cap")) and i % 997 == 0:
                 ctx.samples.append({"type": ty, "recv": G[ty][b], "class": cls, "in": hx(data)[:160], "model": mout[i][:160] if i < len(mout) else None})
 
+        # ---- receiver reuse: ONE receiver, 2..4 successive reads of streams of different shapes
+        vl, vkeys = [], []
+        rng3 = rng.fork()
+        for (ty, a), (w0, pz, leaves, meta) in fresh.items():
+            F, S = randomize(ty, pz, rng3)
+            L = [leaf_txt(k, dms, buf) for (k, dms, buf) in leaves]
+            vl.append(f"{len(vl)} ser write type={ty} prof=ovf {st_txt(F, S, L)}")
+            vkeys.append((ty, a))
+        rc, vout, _ = ctx.run_lines(drv, [], vl)
+        valid = {}
+        for k_, l in zip(vkeys, vout):
+            t = l.split()
+            if len(t) > 1 and not t[1].startswith(("err", "panic", "bad", "big")):
+                valid[k_] = bytes.fromhex(t[1]) if t[1] != "-" else b""
+        seqs = []           # (ty, recv pi, pattern, [streams])
+        for ty in types:
+            ps = sorted(a for (t_, a) in valid if t_ == ty)
+            for b in ps:
+                w0, pz, leaves, meta = fresh[(ty, b)]
+                fit = sorted([a for a in ps if fits_capacity(ty, valid[(ty, a)], pz, leaves)], key=lambda a: len(valid[(ty, a)]))
+                nofit = [a for a in ps if a not in fit]
+                own = valid[(ty, b)]
+                if len(fit) >= 2:
+                    sm, lg = valid[(ty, fit[0])], valid[(ty, fit[-1])]
+                    seqs.append((ty, b, "small-then-large", [sm, lg]))
+                    seqs.append((ty, b, "large-small-large", [lg, sm, lg]))
+                    seqs.append((ty, b, "small-fail-large", [sm, lg[:max(1, len(lg) // 2)], lg]))
+                    seqs.append((ty, b, "small-corrupt-large", [sm, put(lg, 0, 1, lg[0] ^ 0x80) if ty in HAL else lg[:3], lg, sm]))
+                if nofit and fit:
+                    seqs.append((ty, b, "nofit-then-fit", [valid[(ty, nofit[0])], valid[(ty, fit[-1])]]))
+                    seqs.append((ty, b, "fit-nofit-fit", [valid[(ty, fit[0])], valid[(ty, nofit[-1])], valid[(ty, fit[-1])]]))
+                try:
+                    resh = [d_ for c_, d_ in mutations(ty, own, rng3, True) if c_.endswith("reshape")][:2]
+                except ParseError:
+                    resh = []
+                for r_ in resh:
+                    seqs.append((ty, b, "reshape-then-own", [r_, own, r_]))
+                pool = [valid[(ty, a)] for a in ps] + resh + [own[:len(own) // 3], own + b"\x00"]
+                for _ in range(2 if quick else 12):
+                    seqs.append((ty, b, "random", [rng3.choice(pool) for _ in range(rng3.range(2, 4))]))
+        ml, hl = [], []
+        for i, (ty, b, pat, sts) in enumerate(seqs):
+            w0, pz, leaves, meta = fresh[(ty, b)]
+            L = [leaf_txt(k, dms, buf) for (k, dms, buf) in leaves]
+            ins = ";".join(hx(x) for x in sts)
+            ml.append(f"{i} ser seq type={ty} mem={MEM} {st_txt(pz['F'], pz['S'], L)} in={ins}")
+            hl.append(f"{i} seq type={ty} p={','.join(map(str, G[ty][b]))} fill={1 + b} in={ins}")
+        rc, smod, _ = ctx.run_lines(drv, [], ml)
+        seq_fail = []
+        for prof, binp in bins.items():
+            rc, sout = run_harness(ctx, binp, hl)
+            if len(sout) != len(hl):
+                broken.append(f"harness seq ({prof}) stopped after {len(sout)} of {len(hl)} sequences")
+            for i, (ty, b, pat, sts) in enumerate(seqs):
+                if i >= len(sout) or i >= len(smod):
+                    break
+                w0, pz, leaves, meta = fresh[(ty, b)]
+                ha = split_seq_answer(sout[i])
+                ma = split_seq_answer(smod[i])
+                if prof == "release":
+                    ctx.count_case(("seq", ty, pat, tuple(o for o, _ in ma)))
+                # (1) model vs implementation, every read of the sequence
+                for j, ((ho, hd), (mo, md)) in enumerate(zip(ha, ma)):
+                    same = (ho == mo and hd.get("rest") == md.get("rest") and hd.get("W") == md.get("W"))
+                    if same and ty in HAL and "M" in hd:
+                        parts = md.get("L", "").split(":")
+                        mm = ",".join(parts[1:-1]) + "," + str(0 if parts[-1] == "-" else len(parts[-1]) // 2)
+                        same = (mm == hd["M"] and parts[-1] == hd.get("D"))
+                    if same and "A" in md:      # capacity-only acceptance predicate of the model vs the real outcome
+                        same = (md["A"] == ("1" if ho == "ok" else "0"))
+                    if not same:
+                        ctx.disagreements += 1
+                        if len(disagree) < 20:
+                            disagree.append({"type": ty, "recv": G[ty][b], "class": "reuse:" + pat, "read": j, "profile": prof,
+                                             "streams": [hx(x)[:300] for x in sts], "model": str(ma[j])[:300], "impl": str(ha[j])[:300]})
+                        break
+                # (2) the property text's oracle on the implementation alone, then shrink to the shortest failing sequence
+                v = judge_sequence(ty, sts, ha, w0, pz, leaves)
+                if v is not None and len(seq_fail) < 6:
+                    j, why = v
+                    best = (sts[:j + 1], why)
+                    # candidates: every sub-sequence of the earlier reads (in order) followed by the failing read
+                    cands = []
+                    for mask in range(1 << j):
+                        sub = [sts[t_] for t_ in range(j) if (mask >> t_) & 1] + [sts[j]]
+                        cands.append(sub)
+                    cands.sort(key=len)
+                    cl = [f"{c_} seq type={ty} p={','.join(map(str, G[ty][b]))} fill={1 + b} in={';'.join(hx(x) for x in sub)}" for c_, sub in enumerate(cands)]
+                    rc2, cout = run_harness(ctx, binp, cl)
+                    for sub, l2 in zip(cands, cout):
+                        v2 = judge_sequence(ty, sub, split_seq_answer(l2), w0, pz, leaves)
+                        if v2 is not None and v2[0] == len(sub) - 1:
+                            best = (sub, v2[1])
+                            break
+                    sub, why = best
+                    ctx.oracle_failures += 1
+                    seq_fail.append({"type": ty, "recv": G[ty][b], "class": "reuse:" + pat, "profile": prof, "why": why,
+                                     "shortest_failing_sequence": [hx(x) for x in sub], "reads": len(sub),
+                                     "receiver_capacity_bytes": [len(bf) for (_, _, bf) in leaves],
+                                     "stream_sizes": [len(x) for x in sub],
+                                     "rerun": f"printf '0 seq type={ty} p={','.join(map(str, G[ty][b]))} fill={1 + b} in=<streams joined by ;>\\n' | harness/target/release/pvh ser"})
+                elif v is not None:
+                    ctx.oracle_failures += 1
+        ctx.cov["reuse_sequences"] = len(seqs)
+        ctx.cov["reuse_reads"] = sum(len(x[3]) for x in seqs)
+        if seq_fail:
+            oracle_fail[:0] = seq_fail
+
         # ---- allocation from an unvalidated seed_len: one process per case (the process aborts)
         alloc_cases = []
         for ty in ("gglwe_compressed", "ggsw_compressed", "glwe_switching_key_compressed", "blind_rotation_key_compressed"):
@@ -827,10 +1035,11 @@ def run(ctx):
         if cnt:
             ctx.violation(f"{key} ({cnt} cases)", {"key": key, "count": cnt, "first": known_first.get(key), "rerun": "./check C18 --tier quick"}, True, key=key)
     if oracle_fail:
-        ctx.violation("serialisation property violated on the implementation's own output", {"failures": oracle_fail[:20], "rerun": "./check C18 --tier quick"}, True)
-    if disagree:
+        ctx.violation("serialisation property violated on the implementation's own output",
+                      {"failures": oracle_fail[:20], "model_disagreements": disagree[:10], "rerun": "./check C18 --tier quick"}, True)
+    elif disagree:
         ctx.violation("model and implementation disagree (C18 correspondence)", {"disagreements": disagree[:20], "broken": broken[:10]}, False)
-    elif broken:
+    if broken and not disagree and not oracle_fail:
         ctx.log("broken:", *broken[:6])
         ctx.violation("C18 obligation or machinery no longer checks", {"broken": broken[:20]}, False)
     return ctx.finish(rule="case = (type, source layout, receiver layout, mutation class, bytes); distinct = (type, mutation class, model outcome, "
